@@ -519,7 +519,7 @@ class Gen:
         self.R = R
         self.kind = kind
         self.rr = reject_rich
-        self.nd = 2 if kind == "legacy" else R.choice([2, 2, 3])
+        self.nd = 2 if kind == "legacy" else R.choice([2, 2, 2, 3, 3, 1, 4, 5])
         self.torus = (R.random() < 0.15) if reject_rich else (R.random() < 0.5)
         self.bounds = []
         for _ in range(self.nd):
